@@ -1,8 +1,65 @@
 // commands for prover
 use crate::*;
 
+// prover / provertrace: run the REAL run_prover; the rule applications come
+// from the cfg(bb_verif) hook machine::verif (thread-local record).
+fn cmd_prover(trace: bool, prog: &str, lim: &str) -> String {
+    // clear leftovers (e.g. of a case that panicked on this worker thread)
+    let _ = machine::verif::take_apps();
+    let r = machine::run_prover(prog, lim.parse().unwrap());
+    let apps = machine::verif::take_apps();
+    let recs = apps
+        .iter()
+        .map(|(cycle, state, before, rule, times, after)| {
+            format!(
+                "{} {} {} {} {} {}",
+                cycle,
+                state,
+                field_of_tape(before),
+                field_of_rule(rule),
+                times,
+                field_of_tape(after)
+            )
+        })
+        .collect::<Vec<_>>()
+        .join(";");
+    let head = format!("{}|{}|{}", field_of_mresult(&r), apps.len(), fnv(&recs));
+    if trace { format!("{head}|{recs}") } else { head }
+}
+
+// Diagnostic: where does run_prover panic?  (file:line of the panic site; the
+// model runner classifies its own Panic with the same labels.)  The hook is
+// silent like the one of main.rs and records the location per thread.
+thread_local! {
+    static WHY: std::cell::RefCell<String> = const { std::cell::RefCell::new(String::new()) };
+}
+static HOOK: std::sync::Once = std::sync::Once::new();
+
+fn cmd_proverwhy(prog: &str, lim: &str) -> String {
+    HOOK.call_once(|| {
+        std::panic::set_hook(Box::new(|info| {
+            let loc = info
+                .location()
+                .map(|l| format!("{}:{}", l.file().rsplit('/').next().unwrap_or(""), l.line()))
+                .unwrap_or_default();
+            WHY.with(|w| *w.borrow_mut() = loc);
+        }));
+    });
+    let _ = machine::verif::take_apps();
+    let lim: u64 = lim.parse().unwrap();
+    let r = std::panic::catch_unwind(|| machine::run_prover(prog, lim));
+    let napps = machine::verif::take_apps().len();
+    match r {
+        Ok(_) => format!("ok napps={napps}"),
+        Err(_) => format!("PANIC napps={napps} at {}", WHY.with(|w| w.borrow().clone())),
+    }
+}
+
 pub fn dispatch(fields: &[&str]) -> Option<String> {
     match fields {
+        ["prover", prog, lim] => Some(cmd_prover(false, prog, lim)),
+        ["provertrace", prog, lim] => Some(cmd_prover(true, prog, lim)),
+        ["proverwhy", prog, lim] => Some(cmd_proverwhy(prog, lim)),
         _ => None,
     }
 }
